@@ -40,6 +40,8 @@ def scenarios(tier):
     for dt in (60, 3600):
         for rev in (False, True):
             out.append(dict(name=f"outtime-dt{dt}-{'rev' if rev else 'fwd'}", fn="outtime", params=dict(dt=dt, rev=rev), cost=8))
+            if dt == 60:
+                out.append(dict(name=f"outtime-dense-dt{dt}-{'rev' if rev else 'fwd'}", fn="outtime", params=dict(dt=dt, rev=rev, layout="dense"), cost=8))
     out.append(dict(name="reject", fn="reject", params={}, cost=1))
     out.append(dict(name="periods", fn="periods", params={}, cost=3))
     for shape in ("H", "M", "S", "HM", "HS", "MS", "HMS"):
@@ -121,14 +123,20 @@ def outtime(W, p):
     class Grid:
         pass
 
-    O = out.Output(dict(time=timer, state=S, grid=Grid()), filename=str(tmp / "o.nc"), output_period=P * dt + W.int("period_extra", 0, dt - 1), instance_variables=dict(pid=ovar("i4")), skip_initial=skip)
+    O = out.Output(dict(time=timer, state=S, grid=Grid()), filename=str(tmp / "o.nc"), output_period=P * dt + W.int("period_extra", 0, dt - 1), instance_variables=dict(pid=ovar("i4"), X=ovar("f8")), skip_initial=skip, layout=p.get("layout", "sparse"), numrec=W.idx(W.int("numrec", 0, 2)))
     for _ in range(N):
         timer.update()
         O.update()
     O.close()
-    d = W.nc_read(tmp / "o.nc")
     steps = [k * P for k in range(N) if k * P < N and not (skip and k == 0)]
-    t = d["vars"]["time"]
+    files = sorted(f for f in W.nc_files() if str(f).startswith(str(tmp)) and str(f).endswith(".nc"))
+    if not files:
+        W.prove(False, "output-time", dict(note="no output file"))
+        return ("outtime", "nofile")
+    t = []
+    for f in files:  # o.nc, or o_000.nc, o_001.nc, ... in order
+        d = W.nc_read(f)
+        t += list(d["vars"]["time"])
     info = dict(N=N, P=P, skip_initial=skip, dt=dt, rev=rev)
     if len(t) != len(steps) or any(W.is_fill(x) for x in t):
         W.prove(False, "output-time", dict(info, records=len(t), expected=len(steps)))
